@@ -514,11 +514,14 @@ void ScriptVM::Execute(const VarListView& data, const StringResolvable& label)
                 throw;
             }
 
-            *dbg << "Update of script position - This is not an error." << std::endl;
-            *dbg << "=================================================" << std::endl;
-            const ProgramScript* const scr = m_ScriptClass->GetScript();
-            scr->PrintSourcePos(*dbg, m_CodePos - scr->GetProgBuffer());
-            *dbg << "=================================================" << std::endl;
+            if (dbg)
+            {
+                *dbg << "Update of script position - This is not an error." << std::endl;
+                *dbg << "=================================================" << std::endl;
+                const ProgramScript* const scr = m_ScriptClass->GetScript();
+                scr->PrintSourcePos(*dbg, m_CodePos - scr->GetProgBuffer());
+                *dbg << "=================================================" << std::endl;
+            }
 
             nextTime = timeManager.GetTime() + Director.GetThreadExecutionProtection().GetMaxExecutionTime();
         }
